@@ -17,7 +17,15 @@ objective the PROPERTY speaks of, written out in plain real notation (`Proofs/Pu
 1. `gen_loss_is_measurement_loss` (no hypothesis) and `gen_lossAndGrad_is_measurement_loss` (both components; records
    inside the domain): the generated `loss_and_grad` returns exactly `(measLoss, measGrad)`, metric L2 and L1.
 2. `gen_reweighting_never_worse_than_uniform` (total given) / `…_estimated` (total = `estimate_total`, py2total): C19 with
-   the property's objective written out.
+   the property's objective written out, for POSITIVE noise scales (`hnoise : ∀ m ∈ ms, 0 < m.noise`, as the property
+   quantifies): the objective divides by `noise`, and for `noise = 0` the model's field convention `x/0 = 0` makes a
+   measurement contribute `0` at every weight vector (`measLoss_noise_zero`: never-worse would read `0 ≤ 0`) while Python
+   computes `1.0/noise` (ZeroDivisionError for a Python float, `inf`/`nan` for a numpy scalar) — the theorems do not speak
+   about that input.  `…_estimated` assumes the contract `Total.LsmrOK` of C09G on `lsmr` / `np.allclose` (minimum-norm
+   solution where `Qᵀv = 1` is consistent; the test fails, whatever `lsmr` returns, where it is not — so lists with
+   difference queries etc. are covered).  `eps0`: the generated `estimate` takes `np.nextafter(0, 1)` as the parameter
+   `eps0`; the theorems instantiate it with `0` (over `ℝ` the smallest positive double has no counterpart; the guard only
+   matters for zero weights, and `__init__` sets unit weights — C19G `gen_emd*`).
 3. `lossgradQuad_is_measurement_loss`: the hand model's / driver's quadratic form `Public.lossgradQuad` with
    `A = (Q·Inc)/noise` (the matrices the harness builds) is the same pair, hence `gen_lossAndGrad_eq_lossgradQuad`: the
    correspondence stream `C19.emd` / `C19.objective` and the theorems are about ONE function.
@@ -92,14 +100,28 @@ theorem gather_outside_domain {α : Type} [Scalar α] (a b c d : α) :
 
 /-! ## 2. C19 with the property's objective written out -/
 
+/-- a measurement with noise scale `0` contributes `0` to the model's objective at EVERY weight vector (`x/0 = 0`), so
+never-worse would be `0 ≤ 0` for it; Python computes `1.0/noise` there.  This is why the theorems below assume
+`0 < noise` (the hypothesis restricts the statement to the inputs on which model and Python objective agree; the proof
+does not use it) -/
+theorem measLoss_noise_zero (pub : Dataset ℝ) (Q : List (List ℝ)) (y : List ℝ) (cl : List Attr) (w : List ℝ) :
+    measLossL2 pub [⟨Q, y, 0, cl⟩] w = 0 ∧ measLossL1 pub [⟨Q, y, 0, cl⟩] w = 0 := by
+  have zw0 : ∀ (a : List ℝ) (b : List ℝ), (List.zipWith (fun _ _ => (0 : ℝ)) a b).sum = 0 := by
+    intro a
+    induction a with
+    | nil => simp
+    | cons x xs ih => intro b; cases b <;> simp [ih]
+  constructor <;> simp [measLossL2, measLossL1, resid, zw0]
+
+set_option linter.unusedVariables false in
 /-- **C19, total given, objective written out.**  For every public dataset with at least one record, every measurement
-list and every total > 0, a fresh `PublicInference(pub, metric).estimate(ms, total)` (generated code, metric 'L2' resp.
+list with positive noise scales and every total > 0, a fresh `PublicInference(pub, metric).estimate(ms, total)` (generated code, metric 'L2' resp.
 'L1') returns a dataset over the public domain and (distinct attribute names, full-width records) the unchanged public
 records, carrying `self.weights`: one strictly positive weight per record, summing to `total`, and
 `measLoss(returned weights) ≤ measLoss(uniform weights total/n)` — the reweighted data never fits the measurements worse
 than the uniformly weighted public data with the same total. -/
 theorem gen_reweighting_never_worse_than_uniform (pub : Dataset ℝ) (ms : List (Loss.Meas ℝ)) (total : ℝ)
-    (hn : 0 < pub.records) (ht : 0 < total) :
+    (hn : 0 < pub.records) (ht : 0 < total) (hnoise : ∀ m ∈ ms, 0 < m.noise) :
     (let r := PubG.estimateGiven PubG.marginalLossL2 pub (PubG.initWeights pub) ms total 0
      r.1.weights = some r.2 ∧ r.1.dom = pub.dom ∧
      (pub.dom.attrs.Nodup → (∀ row ∈ pub.rows, row.length = pub.dom.attrs.length) → r.1.rows = pub.rows) ∧
@@ -116,14 +138,15 @@ theorem gen_reweighting_never_worse_than_uniform (pub : Dataset ℝ) (ms : List 
   simp only [(gen_loss_is_measurement_loss pub ms _).2] at h1
   exact ⟨h2, h1⟩
 
+set_option linter.unusedVariables false in
 /-- **C19, total omitted, objective written out**: the total is `estimate_total(measurements)` as regenerated by
-tools/py2total.py — under the contracts of C09G (`lsmr` = minimum-norm solution, `allclose` read exactly) it is the model's
-`Total.totalEstimate` (`C09G.gen_public`) and at least 1 — and the same holds with that total. -/
+tools/py2total.py — under the contract `Total.LsmrOK` of C09G (`lsmr` = minimum-norm solution of `Qᵀv = 1` for the
+measurements where that is consistent; for the others — difference queries etc. — whatever it returns fails the `allclose`
+test) it is the model's `Total.totalEstimate` (`C09G.gen_public`) and at least 1 — and the same holds with that total,
+for positive noise scales. -/
 theorem gen_reweighting_never_worse_than_uniform_estimated (lsmrSolve : List (List ℝ) → List ℝ)
     (allclose : List ℝ → List ℝ → Bool) (pub : Dataset ℝ) (ms : List (Loss.Meas ℝ)) (hn : 0 < pub.records)
-    (hl : ∀ t ∈ ms.map measTuple, lsmrSolve t.1
-      = Total.matVec t.1 (Total.solve (Total.gram t.1) (List.replicate (Total.ncols t.1) 1)))
-    (ha : ∀ a b, allclose a b = decide (a = b)) :
+    (hl : Total.LsmrOK lsmrSolve allclose (ms.map measTuple)) (hnoise : ∀ m ∈ ms, 0 < m.noise) :
     let et := fun ms => PGM.TotalG.estimateTotal_public lsmrSolve allclose (ms.map measTuple)
     et ms = Total.totalEstimate ((ms.map measTuple).map Total.toMeas) ∧ 1 ≤ et ms ∧
     (let r := PubG.estimateNone PubG.marginalLossL2 et pub (PubG.initWeights pub) ms 0
@@ -137,13 +160,13 @@ theorem gen_reweighting_never_worse_than_uniform_estimated (lsmrSolve : List (Li
      r.2.length = pub.records ∧ (∀ w ∈ r.2, 0 < w) ∧ r.2.sum = et ms ∧
      measLossL1 pub ms r.2 ≤ measLossL1 pub ms (List.replicate pub.records (et ms / pub.records))) := by
   intro et
-  have h1 : 1 ≤ et ms := (C09.TotalG.gen_total_ge_one lsmrSolve allclose (ms.map measTuple) hl ha).2.2
+  have h1 : 1 ≤ et ms := (C09.TotalG.gen_total_ge_one lsmrSolve allclose (ms.map measTuple) hl).2.2
   have ht : 0 < et ms := by linarith
   have e2 := gen_estimateNone_c19 PubG.marginalLossL2 et pub ms hn ht
   have e1 := gen_estimateNone_c19 PubG.marginalLossL1 et pub ms hn ht
   simp only [(gen_loss_is_measurement_loss pub ms _).1] at e2
   simp only [(gen_loss_is_measurement_loss pub ms _).2] at e1
-  exact ⟨C09.TotalG.gen_public lsmrSolve allclose (ms.map measTuple) hl ha, h1, e2, e1⟩
+  exact ⟨C09.TotalG.gen_public lsmrSolve allclose (ms.map measTuple) hl, h1, e2, e1⟩
 
 /-! ## 3. the hand model's quadratic objective is the same function -/
 
@@ -181,8 +204,17 @@ theorem exPub_inDom : InDom exPub exMs := by
     subst hm
     decide
 
-example : InDom exPub exMs ∧ ([1, 1, 1] : List ℝ).length = exPub.records ∧ 0 < exPub.records ∧ (0 : ℝ) < 4 :=
-  ⟨exPub_inDom, rfl, by decide, by norm_num⟩
+theorem exMs_noise_pos : ∀ m ∈ exMs, 0 < m.noise := by
+  intro m hm
+  simp only [exMs, List.mem_cons, List.not_mem_nil, or_false] at hm
+  subst hm
+  exact one_pos
+
+example : InDom exPub exMs ∧ ([1, 1, 1] : List ℝ).length = exPub.records ∧ 0 < exPub.records ∧ (0 : ℝ) < 4 ∧
+    (∀ m ∈ exMs, 0 < m.noise) ∧
+    Total.LsmrOK Total.minNormSol (fun a b : List ℝ => decide (a = b)) (exMs.map measTuple) :=
+  ⟨exPub_inDom, rfl, by decide, by norm_num, exMs_noise_pos,
+    Total.LsmrOK.of_exact _ _ _ (fun _ _ => rfl) (fun _ _ => rfl)⟩
 
 /-- the instance of the theorems on that dataset -/
 example :
@@ -190,7 +222,7 @@ example :
     r.2.length = 3 ∧ r.2.sum = 4 ∧ measLossL2 exPub exMs r.2 ≤ measLossL2 exPub exMs [4 / 3, 4 / 3, 4 / 3] ∧
     PubG.lossAndGrad PubG.marginalLossL2 exMs (exMs.map (fun M => M.proj)) exPub [1, 1, 1]
       = Public.lossgradQuad (quadMs exPub exMs) [1, 1, 1] := by
-  have h := (gen_reweighting_never_worse_than_uniform exPub exMs 4 (by decide) (by norm_num)).1
+  have h := (gen_reweighting_never_worse_than_uniform exPub exMs 4 (by decide) (by norm_num) exMs_noise_pos).1
   refine ⟨h.2.2.2.1, h.2.2.2.2.2.1, ?_, gen_lossAndGrad_eq_lossgradQuad exPub exMs _ exPub_inDom rfl⟩
   have h7 := h.2.2.2.2.2.2
   have : (List.replicate exPub.records ((4 : ℝ) / exPub.records)) = [4 / 3, 4 / 3, 4 / 3] := by
